@@ -34,7 +34,7 @@ COMPONENTS = {'real': ['bespokeasm (whole package) through the CLI entry point',
               'model': ['props/c09.py:SubstModel (whole-word, fixpoint, cycle-rejecting substitution)']}
 
 PDIR = '/sim/p'
-NAMES = ['AB', 'ABC', 'XAB', 'A_B', 'AB1', 'BA', 'B1', 'CC', 'Ab', 'cc']
+NAMES = ['AB', 'ABC', 'XAB', 'A_B', 'AB1', 'BA', 'B1', 'CC', 'Ab', 'cc', 'b1', 'ADH', 'b10']
 # constants whose names contain symbol names as prefix / suffix / infix, or equal a name that may become a symbol later
 CONST_NAMES = ['XABY', 'ABX', 'Q_AB', 'AB1', 'BA', 'ABCD', 'CCC', 'B12', 'ZA_B', 'ab', 'aB', 'Cc', 'ba']
 WORD = re.compile(r'\b[A-Za-z_]\w+\b')
@@ -215,7 +215,9 @@ class SubstModel:
 def isa_for(pre):
     isa = gen.simple_isa()
     if pre:
-        isa['predefined'] = {'symbols': [dict(name=n, **({'value': v} if v != '' else {})) for n, v in pre.items()]}
+        # an empty replacement text is written either by omitting `value` or as an explicit null
+        isa['predefined'] = {'symbols': [dict(name=n, **({'value': v} if v != '' else (
+            {'value': None} if len(n) % 2 else {}))) for n, v in pre.items()]}
     return isa
 
 
@@ -398,6 +400,12 @@ def make_machine(stats, box):
         def define(self, n, v):
             self.do({'op': 'define', 'name': n, 'value': v})
 
+        @rule(data=st.data())
+        def redefine_with_identical_text(self, data):
+            if self.model.symbols:
+                n = data.draw(st.sampled_from(sorted(self.model.symbols)))
+                self.do({'op': 'define', 'name': n, 'value': self.model.symbols[n]})
+
         @rule(n=cname, v=st.integers(min_value=1, max_value=40))
         def const(self, n, v):
             self.do({'op': 'const', 'name': n, 'value': v})
@@ -567,6 +575,7 @@ def explore(subseed, cfg):
                           [f'{n}=3', f'{n2}=1', f'{n}=4']])
     for kind, case in (
             ('cli-vs-isa', {'pre_symbols': {n: '1'}, 'cli_symbols': {n: '2'}, 'ops': [], 'kind': 'init-collision'}),
+            ('cli-vs-isa-same', {'pre_symbols': {n: '7'}, 'cli_symbols': {n: '7'}, 'ops': [], 'kind': 'init-collision'}),
             ('cli-vs-isa-novalue', {'pre_symbols': {n: ''}, 'cli_symbols': {n: ''}, 'ops': [], 'kind': 'init-collision'}),
             ('cli-vs-cli', {'pre_symbols': {}, 'cli_symbols': {}, 'cli_raw': dupform, 'ops': [],
                             'kind': 'init-collision'}),):
